@@ -673,6 +673,66 @@ func (g *gen) lifecycleBFS(w *world, budget int, reqEnc bool, version int, ws bo
 }
 
 
+// C20 / C18: an EMPTY text is queued under required encryption; the randomness source fails in the very call that
+// completes the key exchange (the session is encrypted, the release of the queue is skipped); the peer — restarted —
+// reports a message unreadable and the key exchange this triggers retransmits the empty text with the resend mark.
+// The mark must arrive as it is, and (generic check in main.go) no package level value may have changed: with an
+// empty text `append(prefix, text...)` is the package-level prefix itself, and whoever erases "the marked copy"
+// erases the prefix for every conversation of the process.
+func (g *gen) emptyQueuedResent(w *world, k int) {
+	w.parties = map[string]*party{}
+	w.dead = false
+	version := 2 + k%2
+	pol := 2
+	if version == 3 {
+		pol = 4
+	}
+	a := w.newParty(partyCfg{policies: pol | 8 | 64, keyIdx: 0, errh: true})
+	b := w.newParty(partyCfg{policies: pol, keyIdx: 1, errh: true})
+	l := &link{w: w, a: a, b: b}
+	g.dist["lifecycle-empty-queued-resent"]++
+	w.send(a, []byte{}) // queued; the query it returns is lost
+	// the peer asks first, so that a is the side that completes the exchange on the Signature message
+	l.enqueue(b, []otr3.ValidMessage{w.query(b)})
+	// run the key exchange until b is encrypted and its Signature message is the next thing a receives
+	for i := 0; i < 40 && !b.c.IsEncrypted() && !w.dead; i++ {
+		if !l.deliver(true) {
+			l.deliver(false)
+		}
+	}
+	if !b.c.IsEncrypted() || a.c.IsEncrypted() || len(l.qba) == 0 || w.dead {
+		g.dist["lifecycle-empty-queued-resent:no-handshake"]++
+		return
+	}
+	a.rnd.failAt = a.rnd.reads // the draw of the next DH key after the exchange has completed
+	l.deliver(false)
+	a.rnd.failAt = -1
+	if !a.c.IsEncrypted() || w.dead {
+		g.dist["lifecycle-empty-queued-resent:not-encrypted-after-failure"]++
+		return
+	}
+	bTag := otr3.VerifSnapshot(b.c).OurTag
+	b2 := w.newParty(partyCfg{policies: pol, keyIdx: 1, errh: true, tag: bTag})
+	l2 := &link{w: w, a: a, b: b2}
+	w.tick(75)
+	_, back, _, _ := w.recv(a, []byte("?OTR Error: You sent an encrypted message, but we are not in a private conversation"))
+	l2.enqueue(a, back)
+	l2.settle(60)
+	if w.dead || !a.c.IsEncrypted() || !b2.c.IsEncrypted() {
+		g.dist["lifecycle-empty-queued-resent:no-second-exchange"]++
+		return
+	}
+	olog.ok("C18")
+	olog.ok("C20")
+	for _, p := range b2.received {
+		if len(p) > 0 && !bytes.Equal(p, []byte("[resent] ")) && bytes.Count(p, []byte{0}) == len(p) {
+			olog.viol("C20", "resend-mark-erased", fmt.Sprintf("OTRv%d: the retransmission of an empty text reached the peer as %q instead of \"[resent] \"", version, p))
+		}
+	}
+	// a second, unrelated pair of the same process: its retransmission must carry the mark
+	g.peerRestart(w)
+}
+
 // C18: the peer loses its state (the client was restarted; same key, same instance tag), reports our
 // last message unreadable, and the key exchange this triggers brings the message to it once, marked
 func (g *gen) peerRestart(w *world) {
@@ -834,6 +894,9 @@ func init() {
 		// under way (after the random part, whose draws stay what they were)
 		for k := 0; k < 3+n/5; k++ {
 			g.peerEndsThenTag(w, k)
+		}
+		for k := 0; k < 2+n/8; k++ {
+			g.emptyQueuedResent(w, k)
 		}
 		extra["panics"] = panicCount
 		olog.export(extra)
